@@ -171,6 +171,18 @@ def _run(ctx):
         check_case(ctx, gen.TAG("section", *kids, ws=True, via_fn=False), 0, "\n")
         check_case(ctx, {"k": "list", "t": "taglist", "c": kids}, 120, "\n")
         ctx.count("extreme_shapes", 5)
+        # a single text child of any length keeps its element on one line (raw-text elements included); an opening tag stays
+        # on one line whatever the number of attributes
+        many_attrs = [["data-a%d" % k, {"t": "str", "s": "v%d" % k}] for k in range(150)]
+        for nm in ("script", "style", "p", "title", "pre"):
+            for n_ in (65535, 65537, 200000):
+                big = gen.TAG("section", gen.TAG(nm, {"k": "text", "s": "x" * n_}, ws=True, via_fn=False), gen.TAG(nm, {"k": "html", "s": "y" * n_}, ws=True, via_fn=False, attrs=many_attrs[:70]),
+                              ws=True, via_fn=False)
+                check_case(ctx, big, 1, "\n")
+        for kids_ in ([], [lg.leaf("text", ids2)], [lg.leaf("text", ids2), gen.TAG("p", lg.leaf("text", ids2), ws=True, via_fn=False, attrs=many_attrs[:65])]):
+            for indent, eol in ((0, "\n"), (3, "\r\n")):
+                check_case(ctx, gen.TAG("div", *kids_, ws=True, via_fn=False, attrs=many_attrs), indent, eol)
+        ctx.count("extreme_shapes", 21)
     # fixed documentation examples
     ex = gen.TAG("div", gen.T("a"), gen.TAG("span", gen.T("b"), ws=False), gen.TAG("p", gen.T("c")), gen.T("d"))
     ctx.sample({"recipe": ex, "output": gen.build(ex).get_html_string()})
